@@ -3,6 +3,7 @@ import BigtoolsModel.Stats2
 import BigtoolsModel.ChunkLines
 import BigtoolsModel.PyBase
 import BigtoolsModel.AtomsGen
+import BigtoolsModel.OverlapsGen
 /-! # C17 — per-region bigWig statistics and values are exact and thread-count independent
 
 Property theorems (statements copied from the lemma modules, proofs by those lemmas). -/
@@ -80,3 +81,12 @@ theorem C17_source_region_statistics_accumulation (n v a b : Int) :
 
 end ST
 
+namespace RT
+
+/-- **The code's own index-pruning predicate.** `Gen.overlaps` (regenerated from `overlaps` and the functions it calls in
+    bbiread.rs on every run) is, for all arguments, the `ov` with which the search theorems are stated; the per-region statistics and values are computed from range queries over that index. -/
+theorem C17_source_overlaps_is_the_models_ov (q qs qe b1 b1s b2 b2e : Nat) :
+    Gen.overlaps q qs qe b1 b1s b2 b2e = ov ⟨q, qs⟩ ⟨q, qe⟩ ⟨b1, b1s⟩ ⟨b2, b2e⟩ :=
+  gen_overlaps_eq_ov q qs qe b1 b1s b2 b2e
+
+end RT
